@@ -40,7 +40,7 @@ func TestMain(m *testing.M) {
 		Level: "fault_enumeration",
 		Rule: "rapid-generated valid files: PLY (ascii/LE/BE; point cloud, mesh, mesh with texcoords, quads) from the independent reference encoder and from ply.Write; binary STL; SPZ (v1/v2, SH 0..3, arbitrary packed bytes, gzip'd by the harness); .splat; PTS (xyz, xyz+i, xyz+i+rgb); 1..6 elements, trailing records carry non-zero values so fabricated zeros cannot coincide with data. " +
 			"For each file EVERY cut position 0..len-1 is decoded (ascii bodies: every position that does not split a number, i.e. every token and line boundary) - exhaustive per file. " +
-			"Outcome must be: an error; or a result bit-equal to the decode of the complete file; or (.splat) exactly the first floor(k/32) records; or a value-equal subset of the full decode (fewer attributes/elements, every returned value identical - counted as its own class). A runtime-error panic, a value differing from the full decode, more elements than the full decode, or a call that does not return within 130 s is a violation. " +
+			"Outcome must be: an error; or a result bit-equal to the decode of the complete file; or (.splat) exactly the first floor(k/32) records; or - PTS only, a text format without an element count - a value-equal subset of the full decode (counted as its own class); for PLY, STL and SPZ, which declare their counts, fewer elements without an error is the violation partial/..., and a strict prefix of a binary STL that decodes to the complete mesh is a fabrication. Sub-check huge-files-cut: four strict prefixes of an STL of 2^20+3 triangles and of two binary PLY clouds of 2^21+8 vertices must all be errors. A runtime-error panic, a value differing from the full decode, more elements than the full decode, or a call that does not return within 130 s is a violation. " +
 			"evaluations = cut points decoded; non-trivial = cut strictly inside the body (after the header); distinct = (file hash, cut). " +
 			"Sub-check stl-count-sweep (exhaustive along the size axis): for EVERY triangle count 1..2000 (quick) / 1..45 000 (thorough) one harness-encoded binary STL with non-zero vertex values, decoded at three strict prefixes " +
 			"(1 byte short, 25 bytes short, one position in the last tenth derived from the count); same judge, with the recipe itself as the content of the complete file; the complete file must decode to the recipe (checked for every count up to 2000 and every 53rd above).",
